@@ -15,7 +15,7 @@ VERIF = os.path.dirname(os.path.dirname(os.path.abspath(__file__)))
 if VERIF not in sys.path:
     sys.path.insert(0, VERIF)
 
-CONTRACT_MODULES = ["c_host_vector", "c_network", "c_environment", "c_state", "c_layout", "c_action"]
+CONTRACT_MODULES = ["c_host_vector", "c_network", "c_environment", "c_state", "c_layout", "c_action", "c_scenarios"]
 BOUNDED_QUICK = [{"subnets": [1, 1, 2]}]
 BOUNDED_THOROUGH = [{"subnets": [1, 1, 2]}, {"subnets": [1, 2, 1, 1]}, {"subnets": [1, 1, 1, 1], "n_sens": 2},
                     {"subnets": [1, 3], "n_srv": 1, "n_os": 1, "n_proc": 1}]
@@ -83,6 +83,8 @@ def _run_task(args):
         except EngineLimit as e:
             out["limit"] = str(e)
             return out
+        if stats.get("limits"):
+            out["limit"] = "; ".join(sorted(set(stats["limits"])))
         out["stats"] = {k: (v if not isinstance(v, set) else sorted(v)) for k, v in stats.items()}
         seen_cover = set()
         for o in obs:
@@ -158,12 +160,13 @@ def check_property(prop, tier="quick", tree="/repo", record=False, jobs=None, le
     bounded = BOUNDED_QUICK if tier == "quick" else BOUNDED_THOROUGH
     jobsB = [(q, v, cfg, timeout_ms, tree, False, frozenset()) for (q, v) in tasks for cfg in bounded
              if getattr(REG.contracts[q], "bounded", True)]
+    unb = lambda q: getattr(REG.contracts[q], "unbounded", True)
     with mp.Pool(jobs or min(16, os.cpu_count() or 4)) as pool:
         # phase 1: bounded (quantifier-free) instances: fast, yields replayable counterexamples
         resB = pool.map(_run_task, jobsB, chunksize=1)
         refuted_names = frozenset(o["name"] for r in resB for o in r["results"] if o["status"] == "refuted")
         # phase 2: unbounded proofs; obligations already refuted in phase 1 are not attempted again
-        jobsA = [(q, v, None, timeout_ms, tree, True, refuted_names) for (q, v) in tasks]
+        jobsA = [(q, v, None, timeout_ms, tree, True, refuted_names) for (q, v) in tasks if unb(q)]
         resA = pool.map(_run_task, jobsA, chunksize=1)
     res = resA + resB
     D = Decision(prop)
@@ -171,7 +174,7 @@ def check_property(prop, tier="quick", tree="/repo", record=False, jobs=None, le
     for r in res:
         if r["error"]:
             D.failures.append(f"{r['qualname']}[{r['variant']}] crashed:\n{r['error']}")
-    limits = [r for r in resA if r["limit"]]
+    limits = [r for r in resA if r["limit"]] + [r for r in resB if r["limit"] and not unb(r["qualname"])]
     # ---- aggregate mode A by obligation name
     agg = {}
     for r in resA:
@@ -200,12 +203,15 @@ def check_property(prop, tier="quick", tree="/repo", record=False, jobs=None, le
                 continue
             if prop not in (o["tags"] or []):
                 continue
-            b = bagg.setdefault(o["name"], {"instances": 0, "discharged": 0})
+            b = bagg.setdefault(o["name"], {"instances": 0, "discharged": 0, "bounded_only": not unb(r["qualname"]),
+                                            "unknown": 0})
             b["instances"] += 1
             if o["status"] == "discharged":
                 b["discharged"] += 1
             elif o["status"] == "refuted":
                 bref.setdefault(o["name"], []).append((r, o))
+            else:
+                b["unknown"] += 1
     expected_path = os.path.join(VERIF, "contracts", "expected_obligations.json")
     expected = json.load(open(expected_path)) if os.path.exists(expected_path) else {}
     exp = expected.get(prop, {})
@@ -260,16 +266,22 @@ def check_property(prop, tier="quick", tree="/repo", record=False, jobs=None, le
                        "replay_attempts": tried, "last_replay": last[1] if last else None}, f, indent=1)
         statuses = {b["status"] for b in (a["bad"] if a else [])}
         regressed = exp.get(name) == "discharged"
+        if a is None and not refs:
+            continue
         if kf is not None:
             D.known.append((kf, name))
         elif "refuted" in statuses or regressed or refs:
             D.violations.append((name, path, " no-failing-input-found"))
         else:
             D.undecided.append((name, path))
+    # ---- bounded-only obligations that the bounded run could not decide
+    for name, b in bagg.items():
+        if b.get("bounded_only") and b["unknown"] and name not in bref:
+            D.undecided.append((name, "bounded instance undecided"))
     # ---- vanished obligations
     if exp and not record:
         for name, st in exp.items():
-            if name not in agg and not limits:
+            if name not in agg and name not in bagg and not limits:
                 D.failures.append(f"obligation vanished: {name}")
     # ---- vacuity: every bounded task must have at least one feasible normal exit
     for (q, v) in tasks:
@@ -282,10 +294,13 @@ def check_property(prop, tier="quick", tree="/repo", record=False, jobs=None, le
                 D.failures.append(f"vacuity guard: no feasible normal-exit path for {q}[{v}] (covers={st})")
     n_obl = len(agg)
     n_dis = sum(1 for a in agg.values() if a["discharged"] == a["instances"])
-    if n_obl == 0 and not limits:
+    if n_obl == 0 and not limits and not any(b.get("bounded_only") for b in bagg.values()):
         D.failures.append("zero obligations generated")
     if record:
         expected[prop] = {n: ("discharged" if a["discharged"] == a["instances"] else "open") for n, a in agg.items()}
+        for n, b in bagg.items():
+            if b.get("bounded_only"):
+                expected[prop][n] = "bounded-discharged" if b["discharged"] == b["instances"] else "open"
         with open(expected_path, "w") as f:
             json.dump(expected, f, indent=1, sort_keys=True)
     # ---- output
@@ -382,6 +397,8 @@ def build_evidence(prop, tier, level, agg, bagg, resA, resB, D, bounded, wall, n
             "bounded_obligation_instances": sum(b["instances"] for b in bagg.values()),
             "bounded_discharged_instances": sum(b["discharged"] for b in bagg.values()),
             "bounded_configs": bounded,
+            "bounded_only_obligations": {n: {"instances": b["instances"], "discharged": b["discharged"]}
+                                         for n, b in sorted(bagg.items()) if b.get("bounded_only")},
             "cover_checks": {f"{k[0]}[{k[1]}]": v for k, v in covers.items()},
             "call_graph_used": sorted(callees),
             "known_findings_printed": [kf["what"] for kf, _ in D.known],
